@@ -52,6 +52,10 @@ type c16CutCase struct {
 	OneWrite bool
 	Chunks   []int
 	Cycle    bool
+	// how the serving peer was built and which of its routes the client names (c16Hist)
+	Hist   phHistory
+	CallAt int
+	PushAt int
 	// derived
 	Class string // wellformed | mustreject | lenient
 	Body  string // body of a well-formed shortening
@@ -393,8 +397,7 @@ func runC16Cut(c *c16CutCase, protos []vt.NamedProto) (fails []string, accepted 
 	}, erpc.WithBodyCodec('s'))
 	w := vt.NewWorld()
 	defer w.Close()
-	srv := w.Peer(erpc.PeerConfig{}, checker, hooks)
-	callRoute, pushRoute := registerLib(srv)
+	srv, callRoute, pushRoute := c16Server(w, c.Hist, c.CallAt, c.PushAt, checker, hooks)
 	failf := func(format string, a ...interface{}) { fails = append(fails, fmt.Sprintf(format, a...)) }
 
 	packed, herr := c16Pack(c, proto, callRoute, pushRoute)
@@ -565,10 +568,11 @@ func genC16Cut(t *rapid.T, protos []vt.NamedProto) *c16CutCase {
 	c.Pushes = rapid.IntRange(0, 2).Draw(t, "pushes")
 	c.OneWrite = rapid.Bool().Draw(t, "onewrite")
 	c.Chunks, c.Cycle = vt.Chunks(t, "chunks")
+	c.Hist, c.CallAt, c.PushAt = c16Hist(t)
 	return c
 }
 
-const ruleC16Cut = "serving peer with auth.NewCheckerPlugin (verdict: by credentials / second receive attempt / accept whoever completes the exchange, with and without an info receiver / reject after SetID / panic) and a counter on every per-message hook; the client's first frame is a valid AUTH_CALL (good or bad credentials, generated method and meta) or CALL frame of the raw, json or protobuf protocol re-built to end at a generated point - at each field boundary (after seq, type, method, status, meta = before the body codec, after the body codec, inside the length fields) or at any byte offset, or consisting of the length prefix alone - with the announced frame length consistent with what is left, followed by 0-3 CALLs and 0-2 PUSHes in the same write or in later writes, under a generated read chunking; the harness' own parsers of the three layouts classify each shortening: malformed or without AUTH_CALL type = must be refused (raw: anything short of the body codec byte; protobuf: a cut inside a field or before the type field; json: a cut before the type value; any shortened CALL), well-formed AUTH_CALL with a shorter body = the checker's verdict on that body decides, json text cut behind the type value = left open (the protocol does not validate the text); oracle: checker runs exactly once; a refused or rejected connection gets no session, no handler and no per-message hook runs, the client gets at most one non-OK AUTH_REPLY then EOF, nothing is listed; an authenticated connection got the OK AUTH_REPLY first and every pipelined CALL is answered exactly once; non-trivial = the frame was shortened; distinct by case"
+const ruleC16Cut = "serving peer (built along a generated installation history as in the checker sub-check: checker given to NewPeer or appended before / after routes, groups and unknown handlers) with auth.NewCheckerPlugin (verdict: by credentials / second receive attempt / accept whoever completes the exchange, with and without an info receiver / reject after SetID / panic) and a counter on every per-message hook; the client's first frame is a valid AUTH_CALL (good or bad credentials, generated method and meta) or CALL frame of the raw, json or protobuf protocol re-built to end at a generated point - at each field boundary (after seq, type, method, status, meta = before the body codec, after the body codec, inside the length fields) or at any byte offset, or consisting of the length prefix alone - with the announced frame length consistent with what is left, followed by 0-3 CALLs and 0-2 PUSHes in the same write or in later writes, under a generated read chunking; the harness' own parsers of the three layouts classify each shortening: malformed or without AUTH_CALL type = must be refused (raw: anything short of the body codec byte; protobuf: a cut inside a field or before the type field; json: a cut before the type value; any shortened CALL), well-formed AUTH_CALL with a shorter body = the checker's verdict on that body decides, json text cut behind the type value = left open (the protocol does not validate the text); oracle: checker runs exactly once; a refused or rejected connection gets no session, no handler and no per-message hook runs, the client gets at most one non-OK AUTH_REPLY then EOF, nothing is listed; an authenticated connection got the OK AUTH_REPLY first and every pipelined CALL is answered exactly once; non-trivial = the frame was shortened; distinct by case"
 
 func TestC16CutFrames(t *testing.T) {
 	rec := vt.NewRec(t, "C16", "cutframes", ruleC16Cut)
@@ -583,7 +587,7 @@ func TestC16CutFrames(t *testing.T) {
 			cut += ":" + c.Boundary
 		}
 		rec.Case(fmt.Sprintf("%+v", *c), nt, "proto="+c.Proto, "base="+c.Base, "cut="+cut, "class="+c.Class, "verdict="+c.Verdict,
-			fmt.Sprintf("class=%s/accepted=%v", c.Class, accepted), "proto="+c.Proto+"/class="+c.Class)
+			fmt.Sprintf("class=%s/accepted=%v", c.Class, accepted), "proto="+c.Proto+"/class="+c.Class, "checker="+c.Hist.install("auth-checker").How)
 		if rec.WantSample() && nt {
 			rec.Sample(c)
 		}
